@@ -17,7 +17,8 @@ T4 = ["r", "r.a", "r.a.x", "r.b", "r.c"]
 T6 = ["r", "r.a", "r.a.x", "r.a.y", "r.b", "r.b.x", "r.c"]
 T5 = ["r", "r.a", "r.a.x", "r.a.x.k", "r.b", "r.b.y"]
 TX = ["r", "r.a", "r.a.x", "r.b", "x", "x.y"]  # a second top-level package (e.g. an external library that was included)
-TREES = {"T4": T4, "T6": T6, "T5": T5, "TX": TX}
+T4P = ["r", "r.a", "r.a.x", "r.ab", "r.c"]  # T4 with a sibling whose name string-extends another sibling's name
+TREES = {"T4": T4, "T6": T6, "T5": T5, "TX": TX, "T4P": T4P}
 
 
 def shape_name(rule: dict) -> str:
@@ -201,6 +202,25 @@ def forests(draw, root="q", max_modules=14, extra=("x", "x.y", "x.y.z", "lib", "
     return tree
 
 
+# a second architecture over partly the same names, to which rule objects are applied first (drive.warmup)
+T4_DECOY = {"tree": ["r", "r.a", "r.a.y", "r.b", "r.b.x", "r.d"],
+            "imports": [["r.a.y", "r.b.x"], ["r.b", "r.a"], ["r.d", "r.a.y"], ["r.b.x", "r.d"], ["r.a", "r.d"]]}
+
+
+@st.composite
+def decoys(draw, tree, siblings=SIBLINGS):
+    """Architecture derived from `tree`: some leaves dropped, some new modules added, its own import relation."""
+    mods = set(tree)
+    leaves = [m for m in tree if not any(M.is_strict_desc(x, m) for x in tree) and "." in m]
+    for m in draw(st.lists(st.sampled_from(leaves), max_size=2, unique=True)) if leaves else []:
+        mods.discard(m)
+    for _ in range(draw(st.integers(0, 3))):
+        parent = draw(st.sampled_from(sorted(mods)))
+        mods.add(parent + "." + draw(st.sampled_from(siblings)))
+    t2 = sorted(M.closure(mods))
+    return {"tree": t2, "imports": [list(e) for e in draw(import_relation(t2, max_edges=8))]}
+
+
 def rule_focus(tree, rule) -> set:
     f = set()
     for n in rule["subj"]["names"]:
@@ -216,7 +236,21 @@ def rule_cases(draw, root="q", max_modules=14):
     tree = draw(forests(root=root, max_modules=max_modules))
     rule = draw(unrelated_rule(tree))
     imports = draw(import_relation(tree, focus=rule_focus(tree, rule)))
-    return {"tree": tree, "imports": [list(e) for e in imports], "rule": rule}
+    spec = {"tree": tree, "imports": [list(e) for e in imports], "rule": rule}
+    if not rule.get("anything") and draw(st.integers(0, 5)) == 0:
+        # the same rule with one 'named' side given as an anchored regex alternation of exactly those names: the reference
+        # model keeps judging the named rule (spec['model_rule']), the implementation gets the regex form
+        import copy
+        import re
+
+        side = draw(st.sampled_from(["subj", "obj"]))
+        if rule[side]["kind"] == "named":
+            impl = copy.deepcopy(rule)
+            impl[side] = {"kind": "regex", "names": ["|".join(re.escape(n) + "$" for n in rule[side]["names"])]}
+            spec["model_rule"], spec["rule"] = rule, impl
+    if draw(st.integers(0, 3)) == 0:
+        spec["warm"] = draw(decoys(tree))
+    return spec
 
 
 def timed_out(deadline, i, every=64) -> bool:
